@@ -233,6 +233,109 @@ func g1Delegations(l *leanFile, leanName, fn string, eras []string) {
 	l.pf("def %s : List (String × String) := [%s]\n\n", leanName, strings.Join(parts, ", "))
 }
 
+// g1PkgDirs maps a package qualifier used in rule files to its directory.
+var g1PkgDirs = map[string]string{"common": "ledger/common", "shelley": "ledger/shelley", "conway": "ledger/conway"}
+
+// g1CondExpr translates a boolean expression over the unsigned variables in
+// `vars`, integer literals and package constants (comparisons, &&, ||, !).
+func g1CondExpr(e ast.Expr, vars map[string]bool, where string) string {
+	var num func(e ast.Expr) string
+	num = func(e ast.Expr) string {
+		switch x := e.(type) {
+		case *ast.BasicLit:
+			if x.Kind == token.INT {
+				return x.Value
+			}
+		case *ast.ParenExpr:
+			return "(" + num(x.X) + ")"
+		case *ast.Ident:
+			if vars[x.Name] {
+				return x.Name
+			}
+		case *ast.SelectorExpr:
+			if id, ok := x.X.(*ast.Ident); ok {
+				if dir, ok := g1PkgDirs[id.Name]; ok {
+					v := constOf(dir, x.Sel.Name)
+					if v != "" && v[0] >= '0' && v[0] <= '9' {
+						return v
+					}
+				}
+			}
+		}
+		fatal("g1 cond %s at %s: unsupported integer expression", where, fset.Position(e.Pos()))
+		return ""
+	}
+	switch x := e.(type) {
+	case *ast.ParenExpr:
+		return "(" + g1CondExpr(x.X, vars, where) + ")"
+	case *ast.UnaryExpr:
+		if x.Op == token.NOT {
+			return "(!" + g1CondExpr(x.X, vars, where) + ")"
+		}
+	case *ast.BinaryExpr:
+		ops := map[token.Token]string{token.EQL: "=", token.NEQ: "≠", token.LSS: "<", token.LEQ: "≤", token.GTR: ">", token.GEQ: "≥"}
+		switch x.Op {
+		case token.LAND:
+			return "(" + g1CondExpr(x.X, vars, where) + " && " + g1CondExpr(x.Y, vars, where) + ")"
+		case token.LOR:
+			return "(" + g1CondExpr(x.X, vars, where) + " || " + g1CondExpr(x.Y, vars, where) + ")"
+		}
+		if o, ok := ops[x.Op]; ok {
+			return "decide (" + num(x.X) + " " + o + " " + num(x.Y) + ")"
+		}
+	}
+	fatal("g1 cond %s at %s: unsupported condition", where, fset.Position(e.Pos()))
+	return ""
+}
+
+// g1CondFact finds the `if` statements of a function whose condition mentions
+// the variable `v` (there must be exactly one, with a body that returns nil)
+// and emits the condition as a Lean Bool function of v.
+func g1CondFact(l *leanFile, pkg, fn, v, leanName string) {
+	p := loadPkg(pkg)
+	fd := findFunc(p, "", fn)
+	if fd == nil || fd.Body == nil {
+		fatal("g1 cond: %s.%s not found", pkg, fn)
+	}
+	var found []*ast.IfStmt
+	ast.Inspect(fd.Body, func(n ast.Node) bool {
+		is, ok := n.(*ast.IfStmt)
+		if !ok {
+			return true
+		}
+		uses := false
+		ast.Inspect(is.Cond, func(m ast.Node) bool {
+			if id, ok := m.(*ast.Ident); ok && id.Name == v {
+				uses = true
+			}
+			return true
+		})
+		if uses {
+			found = append(found, is)
+		}
+		return true
+	})
+	if len(found) != 1 {
+		fatal("g1 cond: %s.%s has %d conditions over %s (expected exactly one)", pkg, fn, len(found), v)
+	}
+	is := found[0]
+	okBody := false
+	if len(is.Body.List) == 1 && is.Else == nil {
+		if r, ok := is.Body.List[0].(*ast.ReturnStmt); ok && len(r.Results) == 1 {
+			if id, ok := r.Results[0].(*ast.Ident); ok && id.Name == "nil" {
+				okBody = true
+			}
+		}
+	}
+	if !okBody {
+		fatal("g1 cond: %s.%s: the %s condition no longer guards a plain `return nil`", pkg, fn, v)
+	}
+	pos := fset.Position(is.Pos())
+	l.pf("/-- condition at %s:%d of `%s` under which the rule returns nil without looking at delegations -/\n",
+		strings.TrimPrefix(pos.Filename, repoRoot+"/"), pos.Line, fn)
+	l.pf("def %s (%s : Nat) : Bool :=\n  %s\n\n", leanName, v, g1CondExpr(is.Cond, map[string]bool{v: true}, pkg+"."+fn))
+}
+
 func init() {
 	registerGen(func() {
 		l := newLean("G1Rules")
@@ -241,6 +344,8 @@ func init() {
 		g1GuardFunc(l, g1Guard{"ledger/allegra", "UtxoValidateOutsideValidityIntervalUtxo", "allegraOutsideValidityInterval"})
 		g1Delegations(l, "validityDelegation", "UtxoValidateOutsideValidityIntervalUtxo",
 			[]string{"allegra", "mary", "alonzo", "babbage", "conway"})
+		g1CondFact(l, "ledger/conway", "UtxoValidateWithdrawals", "protocolMajor", "withdrawalsGateSkipped")
+		g1Delegations(l, "withdrawalsDelegation", "UtxoValidateWithdrawals", []string{"conway"})
 		l.pf("end GV.Gen.G1Rules\n")
 	})
 	registerGen(func() {
@@ -253,6 +358,10 @@ func init() {
 			{"ledger/babbage", "TxTypeBabbage", "txTypeBabbageEra"},
 			{"ledger/conway", "TxTypeConway", "txTypeConwayEra"},
 			{"ledger/dijkstra", "TxTypeDijkstra", "txTypeDijkstraEra"},
+			{"ledger/common", "ProtocolVersionConway", "protocolVersionConway"},
+			{"ledger/common", "ProtocolVersionPlomin", "protocolVersionPlomin"},
+			{"ledger/common", "ProtocolVersionVanRossem", "protocolVersionVanRossem"},
+			{"ledger/common", "ProtocolVersionDijkstra", "protocolVersionDijkstra"},
 		})
 	})
 }
